@@ -7,8 +7,28 @@ use bytes::Bytes;
 use http::header::{HeaderMap, HeaderValue};
 use std::io::Write as _;
 
+thread_local! {
+    static LAST_GZ_DRESS: std::cell::Cell<u32> = const { std::cell::Cell::new(0) };
+}
+
+/// The protocol line of the last `call_should_gzip` (names the unrelated header lines it added).
+fn gzipq_line(ae: Option<&[u8]>) -> String {
+    format!("GZIPQ ae={} dress={}", opt_hex(ae), LAST_GZ_DRESS.with(|d| d.get()))
+}
+
 pub fn call_should_gzip(ae: Option<&[u8]>) -> Result<bool, ()> {
     let mut h = HeaderMap::new();
+    // unrelated header lines around the one that matters (see `UNRELATED_HEADERS`)
+    let d = next_dress();
+    LAST_GZ_DRESS.with(|c| c.set(d));
+    if d != 0 {
+        for k in 0..((d >> 10) % 4) {
+            let (name, value) = UNRELATED_HEADERS[((d >> (12 + 6 * k)) as usize) % UNRELATED_HEADERS.len()];
+            if name != "accept-encoding" {
+                h.append(name, HeaderValue::from_static(value));
+            }
+        }
+    }
     if let Some(v) = ae {
         h.insert("accept-encoding", HeaderValue::from_bytes(v).unwrap());
     }
@@ -39,7 +59,7 @@ fn emit_c16(em: &mut Emit, elems: &[AeElem], ows: u8) {
         if has("*") { "s" } else { "-" },
         show_bool(r)
     );
-    em.case(&format!("GZIPQ ae={}", opt_hex(Some(&v))), show_bool(r), &p, &class);
+    em.case(&gzipq_line(Some(&v)), show_bool(r), &p, &class);
 }
 
 /// Header values for the call-history cases: every ordered pair (x, y) is exercised as "a call
@@ -82,7 +102,7 @@ pub fn c16(em: &mut Emit, thorough: bool, seed: u64) {
     // absent / empty
     {
         let r = call_should_gzip(None);
-        em.case("GZIPQ ae=-", show_bool(r), &pred(r == Ok(false), || "absent header".into()), "absent");
+        em.case(&gzipq_line(None), show_bool(r), &pred(r == Ok(false), || "absent header".into()), "absent");
         let r = call_should_gzip(Some(b""));
         em.case("GZIPQ ae=x", show_bool(r), &pred(r == Ok(false), || "empty header".into()), "empty");
     }
@@ -141,7 +161,7 @@ pub fn c16(em: &mut Emit, thorough: bool, seed: u64) {
                 }),
                 None => pred(r.is_ok(), || "should_gzip panicked".into()),
             };
-            em.case(&format!("GZIPQ ae={}", opt_hex(y.as_deref())), show_bool(r), &p, &format!("history:{}", show_bool(r)));
+            em.case(&gzipq_line(y.as_deref()), show_bool(r), &p, &format!("history:{}", show_bool(r)));
         }
     }
     let n = if thorough { 200_000 } else { 10_000 };
@@ -149,7 +169,7 @@ pub fn c16(em: &mut Emit, thorough: bool, seed: u64) {
         let v = malformed_ae(&mut rng);
         let r = call_should_gzip(Some(&v));
         em.case(
-            &format!("GZIPQ ae={}", opt_hex(Some(&v))),
+            &gzipq_line(Some(&v)),
             show_bool(r),
             &pred(r.is_ok(), || "should_gzip panicked".into()),
             &format!("mal:{}", show_bool(r)),
@@ -167,6 +187,8 @@ struct PartsOrReq {
     /// read the first line only)
     ae_more: Vec<Vec<u8>>,
     as_parts: bool,
+    /// version, request target, unrelated header lines (see `dress_request`)
+    dress: u32,
 }
 
 type BoxError = Box<dyn std::error::Error + Send + Sync>;
@@ -222,7 +244,7 @@ fn build_and_drain(
 ) -> Result<(Vec<Vec<u8>>, Vec<Vec<u8>>, bool, Vec<u8>), ()> {
     history_noise();
     std::panic::catch_unwind(std::panic::AssertUnwindSafe(|| {
-        let mut b = http::Request::builder().method(r.method.clone()).uri("/");
+        let mut b = dress_request(http::Request::builder().method(r.method.clone()), r.dress, true);
         if let Some(v) = &r.ae {
             b = b.header("accept-encoding", HeaderValue::from_bytes(v).unwrap());
         }
@@ -267,7 +289,10 @@ fn build_and_drain(
                 [1] => w.flush().unwrap(),
                 p => w.write_all(p).unwrap(),
             }
-            drop(w);
+            choose_drop_mode();
+            if drop_in_mode(w) {
+                panic!("the writer's drop panicked");
+            }
         }
         let recs = drive_to_end(resp.into_body(), 100_000);
         let mut body = vec![];
@@ -345,13 +370,15 @@ pub fn c17(em: &mut Emit, thorough: bool, seed: u64) {
                         ae: ae.clone(),
                         ae_more,
                         as_parts,
+                        dress: next_dress(),
                     };
                     let calls = call_sequence(chunk, level, case_no);
                     let line = format!(
-                        "SBUILD head={} ae={} calls={}",
+                        "SBUILD head={} ae={} calls={} dress={}",
                         if *m == "HEAD" { 1 } else { 0 },
                         opt_hex(ae.as_deref()),
-                        show_calls(&calls)
+                        show_calls(&calls),
+                        r.dress
                     );
                     // what the handler does with the writer: rotate through the patterns
                     let pattern = (level as usize + mi + as_parts as usize) % 5;
